@@ -1972,6 +1972,9 @@ def clean_astext(node: nodes.Element) -> str:
         img["alt"] = ""
     for raw in list(findall(node)(nodes.raw)):
         raw.parent.remove(raw)
+    # warnings reported inside the node are not part of its text
+    for msg in list(findall(node)(nodes.system_message)):
+        msg.parent.remove(msg)
     return node.astext()
 
 
